@@ -38,6 +38,14 @@ Shape(args, explicitInit, parents, nf, ms, order) ==
 Shapes ==
     { Shape(CArgs(s), FALSE, ps, nf, ms, order) : s \in {x \in ArgSeqs : ValidArgs(x)}, ps \in ParentChoices(TRUE), nf \in 0..2, ms \in MethodSets, order \in {"fm", "mf"} }
     \cup { Shape(<<>>, TRUE, ps, nf, ms, order) : ps \in ParentChoices(FALSE), nf \in 0..2, ms \in MethodSets, order \in {"fm", "mf"} }
+\* member ORDER: every order of two fields, a named method and two operator methods in the class body (the generator rebuilds the
+\* body through a map keyed by name and sorts it: C17 - the members survive; C12 - the order does not depend on the run)
+OrderMembers == [fields |-> <<Def("f1", TRUE, "Int", I(1)), Def("f2", FALSE, "Str", StrL("s"))>>,
+                 methods |-> <<MPlain, Method("+", TRUE, <<Param("other", "Int", Absent)>>, "Int", <<>>, <<Expr(Var("other"))>>),
+                               Method("<", TRUE, <<Param("other", "Int", Absent)>>, "Bool", <<>>, <<Expr(BoolL(TRUE))>>)>>]
+Perms5 == {q \in [1..5 -> 1..5] : \A a, b \in 1..5 : a # b => q[a] # q[b]}
+OrderShapes == { [k |-> "class", n |-> "K", args |-> args, parents |-> <<>>, fields |-> OrderMembers.fields, methods |-> OrderMembers.methods, order |-> q]
+                 : q \in Perms5, args \in {<<>>, <<CArg("p1", TRUE, TRUE, "Int", Absent)>>} }
 \* type refinement as in the README: the class arguments start with an explicit `self: Base1` (and Base1 is a parent)
 SelfShapes == { [sh EXCEPT !.args = <<CArg("self", FALSE, TRUE, "Base1", Absent)>> \o sh.args]
                 : sh \in { Shape(CArgs(s), FALSE, ps, nf, ms, "fm") : s \in {x \in ArgSeqs : ValidArgs(x)},
@@ -54,6 +62,7 @@ OpClasses == { Class("K", <<>>, <<>>, <<>>, <<OpM(n)>>) : n \in OpNames }
              \cup { Class("K", <<>>, <<>>, <<>>, <<OpM(a), OpM(b)>>) : a \in {"<", "__lt__", ">", "__gt__", "=", "+"}, b \in {"__le__", "__ge__", "__ne__", "__eq__", "-"} }
 OpCases == { [prop |-> "C17", kind |-> "operator-names", ctx |-> <<>>, hoist |-> FALSE, prog |-> Prog(<<c>>)] : c \in OpClasses }
 Cases == OpCases \cup { [prop |-> "C17", kind |-> "class-shape", ctx |-> <<>>, hoist |-> FALSE, prog |-> Prog(<<Base1, Base2>> \o TopFuns \o <<c>>)] : c \in {x \in Shapes \cup SelfShapes : WellFormedShape(x)} }
+         \cup { [prop |-> "C17", kind |-> "member-order", ctx |-> <<>>, hoist |-> FALSE, prog |-> Prog(<<c>>)] : c \in OrderShapes }
 VARIABLE c
 Init == Part = "shapes" /\ c \in Cases
 Next == UNCHANGED c
